@@ -39,7 +39,8 @@ type c11sObs struct {
 	err    string
 }
 
-var c11sTable = map[string]string{"10.0.0.1": "02:00:00:00:00:01", "10.0.0.2": "02:00:00:00:00:02", "10.0.0.3": "02:00:00:00:00:03"}
+// 10.0.1.1 and 10.1.0.1 share octets with 10.0.0.1 (another /24, another /16): an entry is found by the whole address
+var c11sTable = map[string]string{"10.0.0.1": "02:00:00:00:00:01", "10.0.0.2": "02:00:00:00:00:02", "10.0.0.3": "02:00:00:00:00:03", "10.0.1.1": "02:00:00:00:01:01", "10.1.0.1": "02:00:00:01:00:01"}
 
 const c11sGW = "02:00:00:00:00:fe"
 
@@ -51,7 +52,7 @@ func c11sScenario(streams [][]string, gateway bool, writer bool, spell16 bool) (
 	}
 	main = func() {
 		cache := NewCache()
-		for ip, mac := range map[string]string{"10.0.0.1": c11sTable["10.0.0.1"], "10.0.0.2": c11sTable["10.0.0.2"], "10.0.0.3": c11sTable["10.0.0.3"]} {
+		for ip, mac := range c11sTable {
 			m, _ := net.ParseMAC(mac)
 			cache.Put(net.ParseIP(ip), m)
 		}
@@ -166,6 +167,11 @@ func verifC11Sched(c *drv.Ctx) {
 		{[][]string{{A, B, A}, {B, A, B}}, true, false, false, 2},
 		{[][]string{{A, X, B}, {B, A, X}}, false, true, false, 2},
 		{[][]string{{A, A}, {B, B}, {C, X}}, true, false, true, 2},
+		// destinations that agree in some octets with a cached one: cached in another /24 and /16 (own entries),
+		// uncached with a cached namesake (gateway, or an error without one)
+		{[][]string{{A, "10.0.1.1", "10.1.0.1", A, "10.0.1.2", B, "10.1.0.3", X, "10.0.1.77", "11.0.0.1"}}, true, false, false, 0},
+		{[][]string{{"10.0.1.2", B, "10.0.1.1", A, "10.2.0.1", C, "10.0.2.3"}}, false, false, true, 0},
+		{[][]string{{A, "10.0.1.1"}, {"10.1.0.1", "10.0.1.2"}}, true, false, false, 1},
 	}
 	if c.Thorough() {
 		scs = append(scs,
